@@ -317,6 +317,28 @@ func (c *Ctx) sharingRules(ia *interpAnchors, reg *registry) {
 	// put and putinterval write into the operand's own storage
 	for _, op := range []string{"put", "putinterval"} {
 		f := reg.op("systemdict", op)
+		if op == "putinterval" {
+			// decided on the evaluator (ext_x7.go): after the operator has run, the object that was the
+			// destination operand holds the elements of the source at the prescribed places (and is
+			// unchanged when the operands are rejected) — wherever the copy is written, in the operator
+			// or in a helper; the inspection of the copy call below only if an evaluation stops
+			var bad []string
+			cells, stopped := 0, ""
+			for _, kind := range []string{"Array", "String"} {
+				_, b, n, decided, why := c.putintervalByEvaluation(f, kind)
+				if !decided {
+					stopped = why
+					break
+				}
+				bad, cells = append(bad, b...), cells+n
+			}
+			if stopped == "" {
+				c.check(len(bad) == 0, "OP-SHARE", c.fname(f), op+": writes into the storage of the operand", f.Pos(), fmt.Sprintf("%d cells evaluated: the destination object afterwards", cells),
+					op+" does not write into the storage of its array/string operand as prescribed; other references to the object would not see the change: "+joinMax(bad, 3))
+				continue
+			}
+			c.note("OP-SHARE: the evaluation of putinterval stops (%s); deciding on the copy call", stopped)
+		}
 		okW := false
 		detail := ""
 		eachInstr(f, func(ins ssa.Instruction) {
@@ -363,6 +385,16 @@ func (c *Ctx) identityRule(ia *interpAnchors) {
 	c.check(okDispatch, "OP-IDENT", c.fname(eq), "two dictionaries are compared by identity (isSameDict on both operands)", eq.Pos(), "", "equal does not hand a pair of dictionaries to the identity test with its two operands")
 	for _, b := range c.reg.builtins() {
 		if b.key == "eq" || b.key == "ne" {
+			// decided on the evaluator (ext_x7.go): the operator is evaluated with the comparison
+			// answering true, false and an error; helpers that fetch the operands are evaluated in
+			// place.  The inspection of the call below only if an evaluation stops.
+			if badCmp, badPol, decided, why := c.eqneByEvaluation(b.fn, eq, b.key == "ne"); decided {
+				c.check(len(badCmp) == 0, "OP-IDENT", c.fname(b.fn), b.key+": compares its two operands", b.fn.Pos(), "evaluated: one comparison, of the two topmost operands", b.key+" does not compare the two topmost operands: "+joinMax(badCmp, 2))
+				c.check(len(badPol) == 0, "OP-IDENT", c.fname(b.fn), b.key+": polarity of the result", b.fn.Pos(), "evaluated with the comparison answering true and false", b.key+": "+joinMax(badPol, 2))
+				continue
+			} else {
+				c.note("OP-IDENT: the evaluation of %s stops (%s); deciding on the call of the comparison", b.key, why)
+			}
 			cs := staticCalls(b.fn, eq)
 			okC := len(cs) == 1
 			if okC {
